@@ -618,7 +618,27 @@ def translate(repo):
                         continue
                     methods.append(("%s@%s.%s" % (name, var, arg), [[(kind2, arg)]], m))
         table.append((cname, statics, props, methods, sorted(class_reads)))
+        # private attributes read by lazy code that are NOT static: constructor-time state.  When such an
+        # attribute was derived in __init__ from a public defining attribute (e.g. a count of frequencies) it
+        # goes stale when that attribute is re-assigned; the clearing of the cache does not help.
+        init_only = an.init_attrs()
+        written_elsewhere = set()
+        for m in an.mro:
+            for mname, fn in classes[m].methods.items():
+                if mname == "__init__":
+                    continue
+                for node in ast.walk(fn):
+                    if isinstance(node, (ast.Assign, ast.AugAssign, ast.AnnAssign)):
+                        targets = node.targets if isinstance(node, ast.Assign) else [node.target]
+                        for t in targets:
+                            for tt in (t.elts if isinstance(t, (ast.Tuple, ast.List)) else [t]):
+                                if is_self_attr(tt):
+                                    written_elsewhere.add(tt.attr)
+        private_reads = [{"attr": a, "read_by": [p for p, d, _ in props if a in d],
+                          "assigned_only_in_init": a in init_only and a not in written_elsewhere}
+                         for a in alldeps if a.startswith("_") and a not in statics]
         side[cname] = {"module": classes[cname].module, "mro": an.mro, "static": statics,
+                       "private_nonstatic_reads": private_reads,
                        "props": {p: {"attrs": d, "lazy": l} for p, d, l in props},
                        "methods": {n: [[list(e) for e in p] for p in ps] for n, ps, _ in methods},
                        "class_attrs_read": sorted(class_reads)}
